@@ -140,6 +140,8 @@ example : CodecLaw demoCodec ['d'] ['j'] := by
   intro x b h; simp [demoCodec] at h ⊢; omega
 example : encodeStateData demoReg demoCodec 5 none = some (6, ['m'], ['d']) := by decide
 example : decodeStateData demoReg demoCodec 6 ['d'] none = some 5 := by decide
+example : ∀ T y, demoCodec.copy T y = some y := fun _ _ => rfl
+example : copyStateData demoReg demoCodec 7 = some 7 := c11_copy_dispatch demoReg demoCodec 7 (fun _ _ => rfl)
 
 /-! ### keys: JSON string escaping -/
 
@@ -203,6 +205,10 @@ theorem parseTriple_tripleText (tid ext txt : Str) (h1 : plainStr tid = true) (h
     rw [e1]
   · simp only [parseTriple, skipWs_quote, p1, skipWs_replicate, skipWs_comma, skipWs_space, e2, p2,
       parseJStr_plain txt h3, skipWs_rbracket]
+
+example : plainStr ['d', 'i', 'c', 't', 'i', 'o', 'n', 'a', 'r', 'y'] = true ∧ plainStr ['a', '"'] = false := by decide
+example : ∃ t1, tripleText ['t'] ['e'] ['A', '='] ++ [','] = '[' :: t1 ∧ parseTriple t1 = some ((['t'], ['e'], ['A', '=']), [',']) :=
+  parseTriple_tripleText _ _ _ (by decide) (by decide) (by decide) _
 
 /-- **C11 djson elements**: `encode_element` / `decode_element` (scalars as JSON, everything else as a
 `[type identifier, extension, base64]` triple handed to `decode_state_data`) satisfy the element law. -/
